@@ -12,7 +12,7 @@
      for every admitted query, fault script and arrival pattern: exactly one reply reaches
      the client's socket, no later than querytimeout + margin; expiry/cancel/capacity
      refusal is a SERVFAIL to that client only; after load stops the server is quiescent. *)
-From Sdns Require Import Common.Base Gen.C11 C11.Model C11.Proofs_Writer C11.Proofs_WG C11.Proofs_Req.
+From Sdns Require Import Common.Base Gen.C11 C11.Model C11.Proofs_Writer C11.Proofs_WG C11.Proofs_Req C11.Proofs_World C11.Proofs_Lazy.
 
 (* ---- translator ties ---- *)
 Theorem writer_sentinels_consistent :
@@ -138,3 +138,42 @@ Theorem every_path_ends : forall s i,
   accepts s i = true -> (rmeasure (rstep s i) < rmeasure s)%nat.
 Proof. exact accepted_step_decreases. Qed.
 Print Assumptions every_path_ends.
+
+(* ---- request context ---- *)
+(* the first terminal cause of a request context is kept whatever is called afterwards *)
+Theorem lazy_cause_sticky : forall ops l c, lz_term l = Some c -> lz_term (fst (lz_run l ops)) = Some c.
+Proof. exact lazy_cause_sticky_run. Qed.
+Print Assumptions lazy_cause_sticky.
+
+(* EffectiveError is nil exactly while nobody cancelled and the clock is strictly before the
+   deadline (so a request never starts or continues work at or after its deadline) *)
+Theorem effective_error_exact : forall l, lz_wf l ->
+  (snd (lz_step l LEffective) = 0%N <->
+   lz_term l = None /\ lz_parent l = false /\ (lz_now l < lz_deadline l)%Z).
+Proof. exact effective_error_exact_lemma. Qed.
+Print Assumptions effective_error_exact.
+
+(* ---- the composed model ---- *)
+(* FULL STATEMENT (not provable here, kept as the target): for the running server, every
+   admitted query receives exactly one reply at its socket no later than querytimeout + margin,
+   under every upstream fault script and arrival pattern, and the server is quiescent after
+   load.  PROVED PART: in the composed model - wait group + store + requests on a virtual
+   clock, behind any number of pool workers, any ready-queue and admission bound, any mix of
+   entry paths - for EVERY history of arrivals, client cancellations, downstream completions
+   and clock advances, every request has written at most one reply, nothing before it ended,
+   and its outcome (replied / client-cancelled / downstream silent) is exactly what was
+   written.  MISSING: wall-clock latency, goroutine/slab leak freedom, and that Go's
+   scheduler, contexts and timers realise the modelled atomic steps (observed by the
+   drivers only). *)
+Theorem exactly_one_reply_partial : forall rs evs,
+  Forall fresh rs ->
+  Forall (fun q => one_reply_and_agreeing_outcome (q_st q)) (reqs (fold_left wevent_step evs (world0 rs))).
+Proof. exact world_one_reply. Qed.
+Print Assumptions exactly_one_reply_partial.
+
+Theorem exactly_one_reply_server_partial : forall rs paths workers qcap cap evs,
+  Forall fresh rs ->
+  Forall (fun q => one_reply_and_agreeing_outcome (q_st q))
+         (reqs (s_w (fold_left sevent_step evs (sworld0 rs paths workers qcap cap)))).
+Proof. exact server_one_reply. Qed.
+Print Assumptions exactly_one_reply_server_partial.
